@@ -519,10 +519,13 @@ class Crate:
             ty = p_['ty'].replace(' ', '')
             if sub in ty:
                 return True
-            t = self.crate_type_in(f['mod'], p_['ty'])
-            st = self.structs.get(t) if t else None
-            if st and any(sub in fl['ty'].replace(' ', '') for fl in st.get('fields', [])):
-                return True
+            # .. or of a crate struct mentioned anywhere in the parameter's type (`Option<&PushConstants>`, `&[VertexInput]`)
+            import re as _re
+            for nm_ in set(_re.findall(r'[A-Za-z_][A-Za-z0-9_]*', p_['ty'])):
+                t = self.resolve(f['mod'], [nm_])
+                st = self.structs.get(t)
+                if st and any(sub in fl['ty'].replace(' ', '') for fl in st.get('fields', [])):
+                    return True
         return False
 
     def method_at(self, file, line, name):
